@@ -59,6 +59,28 @@ def parsePart (os : Shape) (tmpl0 : V3 Int → Rat) (tden : Nat) (j : Json) : Op
     let m ← getVol jBool j "mask"
     some ⟨fun t => m.getD false t, placeStart num den os, color⟩
 
+def jRat (j : Json) : Option Rat :=
+  match j with
+  | Json.arr #[n, d] => do
+    let n ← jInt n
+    let d ← jNat d
+    if d = 0 then none else some (mkRat n d)
+  | _ => none
+
+/-- a table row: the 20 fields in canonical order, each as [numerator, denominator] -/
+def parseRowQ (j : Json) : Option (Particle Rat) := (parseRow jRat j).map (Particle.ofList 0)
+/-- … or as IEEE bit patterns -/
+def parseRowF (j : Json) : Option (Particle Float) := (parseRow jFloat j).map (Particle.ofList 0.0)
+
+def v3Json (p : V3 Int) : Json := Json.arr #[intJson p.x, intJson p.y, intJson p.z]
+def v3RatJson (p : V3 Rat) : Json := Json.arr #[ratJson p.x, ratJson p.y, ratJson p.z]
+def fJson (x : Float) : Json := (bitsOfFloat x : Json)
+
+/-- cosine and sine of an angle in degrees, as `from_euler(..., degrees=True)` evaluates them: `deg2rad` then libm -/
+def csF (deg : Float) : Float × Float :=
+  let r := deg * (3.141592653589793 / 180.0)
+  (Float.cos r, Float.sin r)
+
 def handle (j : Json) : Json :=
   match getStr? j "op" with
   | some "rotate" =>
@@ -72,7 +94,8 @@ def handle (j : Json) : Json :=
   | some "extract" =>
     match getVol jInt j "data" >>= asMap, getInts j "num" >>= v3Of, getNat? j "den", getNats j "sub" >>= shapeOf with
     | some (V, f), some num, some den, some s =>
-      let fr : V3 Int → Rat := fun p => ((f p : Int) : Rat)
+      let vden := (getNat? j "vden").getD 1      -- voxel values are data/vden (non-integer voxels)
+      let fr : V3 Int → Rat := fun p => mkRat (f p) vden
       match extractSubvolume (fun n => (n : Rat)) V fr num den s with
       | some g => Json.mkObj [("data", volJson ratJson (Vol.tab s g)),
           ("enforce", volJson ratJson (Vol.tab V (extractEnforceF V fr (startOf3 num den s) s (meanF (fun n => (n : Rat)) V fr)))), ("start", Json.arr #[intJson (startOf3 num den s).x, intJson (startOf3 num den s).y, intJson (startOf3 num den s).z])]
@@ -90,7 +113,8 @@ def handle (j : Json) : Json :=
   | some "pad" =>
     match getVol jInt j "data" >>= asMap, getNats j "nsize" >>= shapeOf with
     | some (V, f), some N =>
-      let fr : V3 Int → Rat := fun p => ((f p : Int) : Rat)
+      let vden := (getNat? j "vden").getD 1
+      let fr : V3 Int → Rat := fun p => mkRat (f p) vden
       let fill : Rat := match getInts j "fill" with
         | some [n, d] => mkRat n d.toNat
         | _ => meanF (fun n => (n : Rat)) V fr       -- fill_value omitted: the library default (volume mean)
@@ -112,6 +136,51 @@ def handle (j : Json) : Json :=
         | none => err "reject:shape"
       | none => err "bad-args"
     | _, _, _, _ => err "bad-args"
+  | some "placemotl" =>
+    -- place_object through the accessors: rows of the table (exact rationals), optional shift_positions first
+    match getNats j "cshape" >>= shapeOf, getNat? j "tden", getArr? j "rows", (getStr? j "feature") >>= Field.ofName?,
+          (getArr? j "templates") >>= fun a => a.toList.mapM (fun t => parseVol jInt t >>= asMap) with
+    | some C, some tden, some rows, some feature, some ((os, tf0) :: rest) =>
+      match rows.toList.mapM parseRowQ with
+      | some m0 =>
+        if rest.all (fun t => t.1 = os) then
+          let tarr := ((os, tf0) :: rest).toArray
+          let tmplOf : Nat → V3 Int → Rat := fun i p => mkRat ((tarr.getD (if tarr.size = 1 then 0 else i) (os, tf0)).2 p) tden
+          let g0 : V3 Int → Rat := match getVol jInt j "cdata" with
+            | some cv => fun p => ((cv.getD 0 p : Int) : Rat)
+            | none => fun _ => 0
+          let shifted : Option (Motl Rat) := match getInts j "shift" >>= v3Of with
+            | some v => m0.mapM (shiftRowCube v)
+            | none => some m0
+          match shifted with
+          | some m =>
+            match placeMotl C g0 os tmplOf feature m with
+            | some g => Json.mkObj [("data", volJson ratJson (Vol.tab C g)),
+                ("coords", Json.arr ((getCoordinates m).map v3RatJson).toArray),
+                ("starts", Json.arr (m.map fun p => v3Json (placeStartQ (rowCoords p) os)).toArray),
+                ("spec", Json.arr (m.map fun p => v3Json (specStartQ (rowCoords p) os)).toArray),
+                ("R", Json.arr (m.map fun p => match rowCube p with
+                                                | some R => Json.arr (R.toList.map intJson).toArray
+                                                | none => Json.null).toArray)]
+            | none => err "reject:angles-or-shape"
+          | none => err "reject:angles"
+        else err "bad-args"
+      | none => err "bad-args"
+    | _, _, _, _, _ => err "bad-args"
+  | some "motlrot" =>
+    -- the accessors at Float: get_angles / get_rotations / get_coordinates of every row, optionally after shift_positions
+    match getArr? j "rows" with
+    | some rows =>
+      match rows.toList.mapM parseRowF with
+      | some m0 =>
+        let m : Motl Float := match (j.getObjVal? "shift").toOption >>= parseRow jFloat with
+          | some [x, y, z] => shiftPositions csF ⟨x, y, z⟩ m0
+          | _ => m0
+        Json.mkObj [("R", Json.arr ((getRotations csF m).map fun R => Json.arr (R.toList.map fJson).toArray).toArray),
+                    ("angles", Json.arr ((getAngles m).map fun a => Json.arr #[fJson a.1, fJson a.2.1, fJson a.2.2]).toArray),
+                    ("coords", Json.arr ((getCoordinates m).map fun c => Json.arr #[fJson c.x, fJson c.y, fJson c.z]).toArray)]
+      | none => err "bad-args"
+    | none => err "bad-args"
   | some "symexact" =>
     match getVol jInt j "data" >>= asMap, getNat? j "n" with
     | some (s, f), some n =>
